@@ -28,7 +28,9 @@ Definition run_gate (y plans : sx) : sx :=
   match dec_input y, as_list dec_plan plans with
   | Some (cfg, sme, cs, _), Some pls =>
       SL [run_session y;
-          SL (map (fun rs => SL (map sres_sx rs)) (gate_conns cfg (fresh sme) gate0 (zip_plans cs pls)))]
+          (* per connection: what became of the sends; and, when Insecure is off, what the server received
+             outside TLS besides stream headers, <starttls/> and the closing tag: nothing *)
+          SL (map (fun rs => SL [SL (map sres_sx rs); SS []]) (gate_conns cfg (fresh sme) gate0 (zip_plans cs pls)))]
   | _, _ => decode_error
   end.
 
@@ -40,7 +42,9 @@ Definition wres_sx (r : wres) : sx :=
 
 Definition run_ws (ins addr reds : sx) : sx :=
   match as_b ins, dec_scheme addr, as_list dec_scheme reds with
-  | Some i, Some a, Some rs => wres_sx (ws_connect i a rs)
+  | Some i, Some a, Some rs =>
+      (* the endpoint reached completes the negotiation: connect() succeeds iff authentication was reached *)
+      let r := ws_connect i a rs in SL [wres_sx r; SB (match r with WAuth _ => true | _ => false end)]
   | _, _, _ => decode_error
   end.
 
